@@ -116,14 +116,19 @@ func (s *Swarm[T]) Tell(ctx context.Context, dst Addr[T], data p2p.IOVec) error 
 		if err != nil {
 			return err
 		}
-		defer stream.Close()
 		if deadline, yes := ctx.Deadline(); yes {
 			if err := stream.SetWriteDeadline(deadline); err != nil {
+				stream.CancelWrite(0)
 				return err
 			}
 		}
-		_, err = data.WriteTo(stream)
-		return err
+		if _, err := data.WriteTo(stream); err != nil {
+			// abandon the stream: closing it would end it cleanly and the peer would take
+			// the part that was written for the whole message
+			stream.CancelWrite(0)
+			return err
+		}
+		return stream.Close()
 	})
 	if isSessionReplaced(err) {
 		return s.Tell(ctx, dst, data)
